@@ -15,6 +15,8 @@
 package ggql
 
 import (
+	"fmt"
+	"math"
 	"time"
 )
 
@@ -35,6 +37,23 @@ RFC3339 specification with nanoseconds.`,
 	}
 }
 
+// Seconds since the epoch for 0001-01-01T00:00:00Z and 9999-12-31T23:59:59Z,
+// the range that can be written as RFC 3339.
+const (
+	minTimeSecs = -62135596800
+	maxTimeSecs = 253402300799
+)
+
+// timeFromSeconds converts seconds since the epoch to a UTC time or returns
+// an error if the seconds are not a number or outside the RFC 3339 range.
+func timeFromSeconds(f float64) (time.Time, error) {
+	if math.IsNaN(f) || f < minTimeSecs || maxTimeSecs+1 <= f {
+		return time.Time{}, fmt.Errorf("%w %g seconds into a Time, out of range", ErrCoerce, f)
+	}
+	secs := math.Floor(f)
+	return time.Unix(int64(secs), int64((f-secs)*float64(time.Second))).In(time.UTC), nil
+}
+
 // CoerceIn coerces an input value into the expected input type if possible
 // otherwise an error is returned.
 func (*timeScalar) CoerceIn(v interface{}) (interface{}, error) {
@@ -43,10 +62,12 @@ func (*timeScalar) CoerceIn(v interface{}) (interface{}, error) {
 	case nil:
 		// leave as nil
 	case float64:
-		secs := int64(tv)
-		v = time.Unix(0, secs*int64(time.Second)).In(time.UTC).Add(time.Duration((tv - float64(secs)) * float64(time.Second)))
+		v, err = timeFromSeconds(tv)
 	case int64:
-		v = time.Unix(0, tv*int64(time.Second)).In(time.UTC)
+		v, err = timeFromSeconds(float64(tv))
+		if err == nil {
+			v = time.Unix(tv, 0).In(time.UTC)
+		}
 	case string:
 		var t time.Time
 		if t, err = time.Parse(time.RFC3339Nano, tv); err == nil {
@@ -72,10 +93,11 @@ func (t *timeScalar) CoerceOut(v interface{}) (interface{}, error) {
 	case nil:
 		// remains nil
 	case float64:
-		secs := int64(tv)
-		tt = time.Unix(0, secs*int64(time.Second)).In(time.UTC).Add(time.Duration((tv - float64(secs)) * float64(time.Second)))
+		tt, err = timeFromSeconds(tv)
 	case int64:
-		tt = time.Unix(0, tv*int64(time.Second)).In(time.UTC)
+		if _, err = timeFromSeconds(float64(tv)); err == nil {
+			tt = time.Unix(tv, 0).In(time.UTC)
+		}
 	case string:
 		tt, err = time.Parse(time.RFC3339Nano, tv)
 	case time.Time:
